@@ -27,8 +27,19 @@ package channelmonitor
 //@   modifies mc.restartedAt, mc.restartQueued, mc.consecutiveRestarts
 //@   requires [fresh-goroutine] !holds(mc.busyToken)
 //@   loop 0 invariant [attempting] holds(mc.busyToken)
+//@   loop 0 invariant [no-close-while-attempting] calls(monitoredChannel.closeChannelAndShutdown) == 0
+//@   loop 0 step [one-attempt-per-round] calls(monitoredChannel.doRestartChannel) == 1 && ret(monitoredChannel.doRestartChannel, 0) == nil
+//@   guarantee [holder-dequeues-once] holds(self.busyToken) ==> (old(self.restartQueued) ? (!self.restartQueued && !self.restartedAt.IsZero()) : (self.restartedAt.IsZero() && !self.restartQueued))
+//@       -- after an attempt: a queued restart is taken off the queue (and performed next, once); otherwise the in-flight mark is cleared
+//@   guarantee [bystander-queues] !holds(self.busyToken) ==> (old(self.restartedAt.IsZero()) ? (!self.restartedAt.IsZero() && self.restartQueued == old(self.restartQueued)) :
+//@       (self.restartQueued && self.restartedAt == old(self.restartedAt)))
 //@   ensures [busy-means-queued-only] calls(monitoredChannel.doRestartChannel) == 0 ==> only() && !holds(mc.busyToken)
-//@   ensures [close-on-failure] all(monitoredChannel.closeChannelAndShutdown, $1 == ret(monitoredChannel.doRestartChannel, 0)) || true
+//@   ensures [failed-attempt-closes-once] calls(monitoredChannel.doRestartChannel) >= 1 ==>
+//@       calls(monitoredChannel.closeChannelAndShutdown) == (ret_last(monitoredChannel.doRestartChannel, 0) != nil ? 1 : 0) &&
+//@       all(monitoredChannel.closeChannelAndShutdown, $1 == ret_last(monitoredChannel.doRestartChannel, 0))
+//@       -- when restarting fails (bound exceeded, or reconnect / restart message failing persistently) the channel is closed with that error; never otherwise
+//@   ensures [done-means-idle] calls(monitoredChannel.doRestartChannel) >= 1 && ret_last(monitoredChannel.doRestartChannel, 0) == nil ==> !holds(mc.busyToken)
+//@       -- returning after a successful attempt with nothing queued leaves no restart in flight
 
 //@ func (*channelmonitor.monitoredChannel).doRestartChannel {C14}
 //@   acquires {C20} channelmonitor.Monitor.lk, channelmonitor.monitoredChannel.shutdownLk, graphsync.Transport.dtChannelsLk, graphsync.dtChannel.lk, graphsync.dtChannel.optionsLk, monitoredChannel.restartLk, registry.Registry.registryLk, tracing.SpansIndex.spansLk, transportoptions.TransportOptions.optionsLk
@@ -77,6 +88,12 @@ package channelmonitor
 //@   acquires {C20} Monitor.lk
 //@   modifies m.channels
 //@   ensures [disabled] m.cfg == nil ==> result == nil && untouched
+//@   guarantee [one-monitor-per-channel] (forall k datatransfer.ChannelID :: k != chid ==> has(self.channels, k) == old(has(self.channels, k)) &&
+//@       (has(self.channels, k) ==> self.channels[k] == old(self.channels[k]))) && has(self.channels, chid) &&
+//@       (old(has(self.channels, chid)) ==> self.channels[chid] == old(self.channels[chid]))
+//@       -- a second monitor for a channel that has one is refused; other channels' monitors are untouched
+//@   ensures [refuses-duplicates] m.cfg != nil ==> calls(newMonitoredChannel) <= 1 && (result == nil) == (calls(newMonitoredChannel) == 0) &&
+//@       (calls(newMonitoredChannel) == 1 ==> result == ret(newMonitoredChannel, 0)) && all(newMonitoredChannel, $2 == chid && $1 == m.mgr && $3 == m.cfg)
 //@ func (*channelmonitor.Monitor).AddPushChannel {C14}
 //@   acquires {C20} channelmonitor.Monitor.lk
 //@   modifies m.channels
@@ -96,6 +113,7 @@ package channelmonitor
 //@   ensures [closes-only-on-timer] calls(monitoredChannel.closeChannelAndShutdown) <= 1
 //@ func channelmonitor.newMonitoredChannel {C14}
 //@   opaque
+//@   ensures [constructed] result != nil -- assumed (the constructor wires the debounce dependency and is not under contract)
 
 // lock effects of this package's interfaces (C20)
 //@ extern func (channelmonitor.monitorAPI).RestartDataTransferChannel
